@@ -33,7 +33,7 @@ def run(prog, tier):
     ctor = prog.fn('ezc3d::c3d::c3d', nparams=1)
     load = [prog.funcs[u] for u in sorted(prog.reachable_from([ctor]))]
     res.info['load_callgraph'] = len(load)
-    res.minimum('functions on the load path', len([f for f in load if not f.implicit]), 60)
+    res.minimum('functions on the load path', len([f for f in load if not f.implicit]), 45)
     M = MT.get(prog)
     # ---- std-exceptions ------------------------------------------------------------------------
     nthrow = 0
@@ -106,7 +106,7 @@ def run(prog, tier):
     CR.parameters_reader_rule(prog, res, 'alloc-size/parameters-read')
     # ---- load-index-site ---------------------------------------------------------------------------
     n = indexsites.rule(prog, res, scope={f.usr for f in load}, rule_name='load-index-site')
-    res.minimum('index sites on the load path', n, 40)
+    res.minimum('index sites on the load path', n, 28)
     # ---- recursion -----------------------------------------------------------------------------------
     rec = indexsites.recursion_sites(prog)
     want = ['ezc3d::c3d::readParam', 'ezc3d::c3d::readParam', 'ezc3d::c3d::_readMatrix', 'ezc3d::c3d::_dispatchMatrix']
